@@ -33,6 +33,9 @@ TStreamOpen == Ev("StreamOpen") /\ StreamOpen(Line.s, Line.o, Line.st, Line.en)
 TStreamNext == Ev("StreamNext") /\ StreamNext(Line.s, Line.o, Line.i, Line.has, Line.fid)
 TBatEnc == Ev("BatEnc") /\ BatEnc(Line.codec, Line.in, Line.b)
 TBatDec == Ev("BatDec") /\ BatDec(Line.codec, Line.b, Line.out)
+\* a decoder was given bytes nobody encoded (a damaged copy of chunk b): whatever it answered, nothing of the
+\* model changes -- the decodes that follow on the same decoder are judged as before
+TBatBad == Ev("BatBad") /\ <<Line.codec, Line.b>> \in DOMAIN bat /\ UNCHANGED vars
 TFoEnc == Ev("FoEnc") /\ FoEnc(Line.in, Line.b, Line.len, Line.msize)
 TFoDec == Ev("FoDec") /\ FoDec(Line.b, Line.err, Line.size, Line.width, Line.out, Line.tailin, Line.tailout, Line.oob)
 TFoBlocks == Ev("FoBlocks") /\ FoBlocks(Line.b, Line.dlen, Line.idxs, Line.rngs)
@@ -40,7 +43,7 @@ TFoBlocks == Ev("FoBlocks") /\ FoBlocks(Line.b, Line.dlen, Line.idxs, Line.rngs)
 TraceNext == TReset \/ TEncGet \/ TEncReset \/ TEncAppend \/ TEncEmit \/ TEncBytes \/ TEncRelease
              \/ TDecGet \/ TDecLoad \/ TDecSeq \/ TDecProbe \/ TDecRelease
              \/ TStreamBytes \/ TStreamOpen \/ TStreamNext
-             \/ TBatEnc \/ TBatDec \/ TFoEnc \/ TFoDec \/ TFoBlocks
+             \/ TBatEnc \/ TBatDec \/ TBatBad \/ TFoEnc \/ TFoDec \/ TFoBlocks
 TraceSpec == TraceInit /\ [][TraceNext]_tvars
 
 \* invariants of the reference state reached through the real history
